@@ -838,6 +838,10 @@ func (t *Table) SetCellFormat(row, col int, format *CellFormat) error {
 		return err
 	}
 
+	if format == nil {
+		return fmt.Errorf("单元格格式配置不能为空")
+	}
+
 	// 确保单元格有属性
 	if cell.Properties == nil {
 		cell.Properties = &TableCellProperties{}
@@ -1599,6 +1603,10 @@ type TableLayoutConfig struct {
 
 // SetTableLayout 设置表格布局和定位
 func (t *Table) SetTableLayout(config *TableLayoutConfig) error {
+	if config == nil {
+		return fmt.Errorf("表格布局配置不能为空")
+	}
+
 	if t.Properties == nil {
 		t.Properties = &TableProperties{}
 	}
@@ -1788,6 +1796,10 @@ type TablePageBreakConfig struct {
 
 // SetTablePageBreak 设置表格分页控制
 func (t *Table) SetTablePageBreak(config *TablePageBreakConfig) error {
+	if config == nil {
+		return fmt.Errorf("表格分页配置不能为空")
+	}
+
 	// 表格级别的分页控制通常在表格属性中设置
 	// 这里先记录配置，实际XML输出时需要相应的实现
 	Info(fmt.Sprintf("设置表格分页控制：保持与下一段落=%t，保持行=%t，段前分页=%t，孤行控制=%t",
@@ -2178,6 +2190,10 @@ func (t *Table) ApplyTableStyle(config *TableStyleConfig) error {
 
 // SetTableBorders 设置表格边框
 func (t *Table) SetTableBorders(config *TableBorderConfig) error {
+	if config == nil {
+		return fmt.Errorf("表格边框配置不能为空")
+	}
+
 	if t.Properties == nil {
 		t.Properties = &TableProperties{}
 	}
@@ -2209,6 +2225,10 @@ func (t *Table) SetTableBorders(config *TableBorderConfig) error {
 
 // SetTableShading 设置表格背景
 func (t *Table) SetTableShading(config *ShadingConfig) error {
+	if config == nil {
+		return fmt.Errorf("表格背景配置不能为空")
+	}
+
 	if t.Properties == nil {
 		t.Properties = &TableProperties{}
 	}
@@ -2228,6 +2248,10 @@ func (t *Table) SetCellBorders(row, col int, config *CellBorderConfig) error {
 	cell, err := t.GetCell(row, col)
 	if err != nil {
 		return err
+	}
+
+	if config == nil {
+		return fmt.Errorf("单元格边框配置不能为空")
 	}
 
 	if cell.Properties == nil {
@@ -2264,6 +2288,10 @@ func (t *Table) SetCellShading(row, col int, config *ShadingConfig) error {
 	cell, err := t.GetCell(row, col)
 	if err != nil {
 		return err
+	}
+
+	if config == nil {
+		return fmt.Errorf("单元格背景配置不能为空")
 	}
 
 	if cell.Properties == nil {
@@ -2521,6 +2549,10 @@ func (iter *CellIterator) Progress() float64 {
 
 // ForEach 遍历所有单元格，对每个单元格执行指定函数
 func (t *Table) ForEach(fn func(row, col int, cell *TableCell, text string) error) error {
+	if fn == nil {
+		return fmt.Errorf("回调函数不能为空")
+	}
+
 	iterator := t.NewCellIterator()
 
 	for iterator.HasNext() {
@@ -2539,6 +2571,10 @@ func (t *Table) ForEach(fn func(row, col int, cell *TableCell, text string) erro
 
 // ForEachInRow 遍历指定行的所有单元格
 func (t *Table) ForEachInRow(rowIndex int, fn func(col int, cell *TableCell, text string) error) error {
+	if fn == nil {
+		return fmt.Errorf("回调函数不能为空")
+	}
+
 	if rowIndex < 0 || rowIndex >= t.GetRowCount() {
 		return fmt.Errorf("行索引无效: %d", rowIndex)
 	}
@@ -2562,6 +2598,10 @@ func (t *Table) ForEachInRow(rowIndex int, fn func(col int, cell *TableCell, tex
 
 // ForEachInColumn 遍历指定列的所有单元格
 func (t *Table) ForEachInColumn(colIndex int, fn func(row int, cell *TableCell, text string) error) error {
+	if fn == nil {
+		return fmt.Errorf("回调函数不能为空")
+	}
+
 	if colIndex < 0 || colIndex >= t.GetColumnCount() {
 		return fmt.Errorf("列索引无效: %d", colIndex)
 	}
@@ -2622,6 +2662,10 @@ func (t *Table) GetCellRange(startRow, startCol, endRow, endCol int) ([]*CellInf
 
 // FindCells 查找满足条件的单元格
 func (t *Table) FindCells(predicate func(row, col int, cell *TableCell, text string) bool) ([]*CellInfo, error) {
+	if predicate == nil {
+		return nil, fmt.Errorf("查找条件函数不能为空")
+	}
+
 	var matchedCells []*CellInfo
 
 	err := t.ForEach(func(row, col int, cell *TableCell, text string) error {
